@@ -1,10 +1,84 @@
 import CoxeterVerif.Driver.Proto
+import CoxeterVerif.Model.FormFactor
+import CoxeterVerif.Spec.FormFactor
 
 namespace OpsC12
 
-/-- driver ops of C12. `none` = unknown op. -/
+def cxs {α} [Codec α] (l : List (Cx α)) : String :=
+  " ".intercalate (l.map fun z => s!"{Out.sc z.re} {Out.sc z.im}")
+
+def rdFace {α} [Codec α] (c : Ctx) : Rd (FF.Face α) := do
+  let vs ← Rd.list c (Rd.v3 c)
+  let n ← Rd.v3 c
+  let off ← Rd.sc c
+  pure ⟨vs, n, off⟩
+
+def rdBox {α} [Codec α] (c : Ctx) : Rd (V3 α × V3 α) := do
+  let lo ← Rd.v3 c
+  let hi ← Rd.v3 c
+  pure (lo, hi)
+
+/-- driver ops of C12. `none` = unknown op.
+    `mode`: i0 = the batch model (masks, as the Python), i1 = map of the single-q model. -/
 def run (α : Type) [Scalar α] [Codec α] (op : String) (c : Ctx) : Option (Rd String) :=
   match op with
+  | "ff.polygon" => some do
+      -- in: mode verts normal qs density ; out: (re im) per q
+      let mode ← Rd.nat c
+      let vs : List (V3 α) ← Rd.list c (Rd.v3 c)
+      let n : V3 α ← Rd.v3 c
+      let qs : List (V3 α) ← Rd.list c (Rd.v3 c)
+      let rho : α ← Rd.sc c
+      let out := if mode = 0 then FF.polygonFFBatch vs n qs rho else qs.map (FF.polygonFF vs n · rho)
+      pure (cxs out)
+  | "ff.polygon_geom" => some do
+      -- in: verts hasNormal normal ; out: stored normal(3) signed_area area
+      let vs : List (V3 α) ← Rd.list c (Rd.v3 c)
+      let has ← Rd.nat c
+      let n0 : V3 α ← Rd.v3 c
+      let n := FF.polygonNormal vs (if has = 1 then some n0 else none)
+      pure s!"{Out.v3 n} {Out.sc (FF.signedArea vs n)} {Out.sc (FF.polygonArea vs n)}"
+  | "ff.polyhedron" => some do
+      -- in: mode faces volume qs density ; out: (re im) per q
+      let mode ← Rd.nat c
+      let faces : List (FF.Face α) ← Rd.list c (rdFace c)
+      let vol : α ← Rd.sc c
+      let qs : List (V3 α) ← Rd.list c (Rd.v3 c)
+      let rho : α ← Rd.sc c
+      let out := if mode = 0 then FF.polyhedronFFBatch faces vol qs rho
+                 else qs.map (FF.polyhedronFF faces vol · rho)
+      pure (cxs out)
+  | "ff.sphere" => some do
+      -- in: mode radius centre qs density ; out: (re im) per q
+      let mode ← Rd.nat c
+      let r : α ← Rd.sc c
+      let ctr : V3 α ← Rd.v3 c
+      let qs : List (V3 α) ← Rd.list c (Rd.v3 c)
+      let rho : α ← Rd.sc c
+      let out := if mode = 0 then FF.sphereFFBatch r ctr qs rho else qs.map (FF.sphereFF r ctr · rho)
+      pure (cxs out)
+  | "spec.ff.boxes" => some do
+      let boxes : List (V3 α × V3 α) ← Rd.list c (rdBox c)
+      let qs : List (V3 α) ← Rd.list c (Rd.v3 c)
+      let rho : α ← Rd.sc c
+      pure (cxs (qs.map (Spec.boxesFT boxes · rho)))
+  | "spec.ff.polygon" => some do
+      let vs : List (V3 α) ← Rd.list c (Rd.v3 c)
+      let n : V3 α ← Rd.v3 c
+      let qs : List (V3 α) ← Rd.list c (Rd.v3 c)
+      let rho : α ← Rd.sc c
+      pure (cxs (qs.map (Spec.polygonFT vs n · rho)))
+  | "spec.ff.tets" => some do
+      let Ts : List (Tet α) ← Rd.list c (Rd.tet c)
+      let qs : List (V3 α) ← Rd.list c (Rd.v3 c)
+      let rho : α ← Rd.sc c
+      pure (cxs (qs.map (Spec.tetsFT Ts · rho)))
+  | "spec.ff.ball" => some do
+      let r : α ← Rd.sc c
+      let ctr : V3 α ← Rd.v3 c
+      let qs : List (V3 α) ← Rd.list c (Rd.v3 c)
+      let rho : α ← Rd.sc c
+      pure (cxs (qs.map (Spec.ballFT r ctr · rho)))
   | _ => none
 
 end OpsC12
